@@ -78,7 +78,7 @@ PROPERTIES["C05"] = {
     "explanation": "C05: penalty/augmented-Lagrangian functions vs. independently written defining formulas for symbolic objective, constraints, point, penalty and multipliers; augmented-Lagrangian outer loop with a scripted (arbitrary-point) inner solver: converged => recomputed feasibility <= epsilon, stored constraint values = recomputed.",
     "assumptions": SRE_ASSUME,
     "bounds": {"dims": "2 (functions), 1..2 (solver)", "constraints_per_function": "<= 4", "AL outer iterations explored": "2..3"},
-    "outside": ["quality of the inner minimisation (the inner solver is an arbitrary-point oracle; outer iterations explored up to the `outers` bound)", "linear/quadratic penalty solvers' outer loops"],
+    "outside": ["quality of the inner minimisation (the inner solver is an arbitrary-point oracle; outer iterations explored up to the `outers` bound)", "linear/quadratic penalty solvers: their outer loops run under the same scripted inner solver for the honest-result clause (reported value = objective at the returned point, stored constraint values), no feasibility promise is checked for them"],
     "units": [
         {"engine": "sre", "harness": "C05_penalty", "sources": ["C05_penalty.cpp"],
          "quick": ["k=0,1,2;d=2", "k=3,4;d=2", "k=5,6;d=2", "k=7,8;d=2", "k=9,10;d=2", "k=6,3,2;d=2"],
@@ -87,8 +87,9 @@ PROPERTIES["C05"] = {
          "encoded": ["nano::linear_penalty_function_t::do_vgrad", "nano::quadratic_penalty_function_t::do_vgrad",
                      "nano::augmented_lagrangian_function_t::do_vgrad", "nano::vgrad(constraint_t)", "nano::function_t::constrain"]},
         {"engine": "sre", "harness": "C05_alsolver", "sources": ["C05_alsolver.cpp"],
-         "quick": ["d=1;cons=b;outers=2", "d=1;cons=l;outers=2", "d=1;cons=e;outers=2", "d=1;cons=q;outers=2"],
-         "thorough": ["d=1;cons=%s;outers=%d" % (c, o) for c in ("b", "l", "e", "q", "lb", "eb") for o in (2, 3)] + ["d=2;cons=l;outers=2", "d=2;cons=e;outers=2"],
+         "quick": ["d=1;cons=b;outers=2", "d=1;cons=l;outers=2", "d=1;cons=e;outers=2", "d=1;cons=q;outers=2", "d=1;cons=b;outers=2;solver=qp", "d=1;cons=e;outers=2;solver=lp", "d=1;cons=q;outers=2;solver=qp", "d=1;cons=l;outers=3;solver=lp"],
+         "thorough": ["d=1;cons=%s;outers=%d" % (c, o) for c in ("b", "l", "e", "q", "lb", "eb") for o in (2, 3)] + ["d=2;cons=l;outers=2", "d=2;cons=e;outers=2"] +
+                     ["d=1;cons=%s;outers=%d;solver=%s" % (c, o, sv) for c in ("b", "l", "e", "q", "lb") for o in (2, 3) for sv in ("lp", "qp")],
          "budget": {"quick": {"deadline_s": 60, "max_paths": 20000, "query_s": 8}, "thorough": {"deadline_s": 900, "max_paths": 300000, "query_s": 30}},
          "encoded": ["nano::solver_augmented_lagrangian_t::do_minimize", "(anonymous)::make_ro1", "(anonymous)::make_criterion", "nano::converged(bstate, cstate, eps)", "nano::solver_t::done",
                      "nano::solver_state_t::{update, update_constraints, kkt_optimality_test1/2}", "nano::augmented_lagrangian_function_t::do_vgrad (through the scripted inner solver)"]},
@@ -109,10 +110,11 @@ PROPERTIES["C14"] = {
     "units": [
         {"engine": "sre", "harness": "C14_scaling", "sources": ["C14_scaling.cpp"],
          "quick": ["f=rrr;n=3;fs=2;ts=0", "f=rrr;n=3;fs=3;ts=3", "f=rrr;n=3;fs=1;ts=1;miss=1", "f=rsr;n=3;miss=1;fs=1;ts=2",
-                   "f=rmr;n=3;fs=3;ts=2", "f=rrr;n=3;miss=2;fs=0;ts=3", "f=rrr;n=3;miss=3;fs=3;ts=0", "f=Sr;n=2;fs=1;ts=1", "f=rrr;n=3;fs=2;ts=0;threads=3;sched=0", "f=rrr;n=3;fs=1;ts=1;miss=1;threads=2;sched=2"],
+                   "f=rmr;n=3;fs=3;ts=2", "f=rrr;n=3;miss=2;fs=0;ts=3", "f=rrr;n=3;miss=2;fs=1;ts=0", "f=rrr;n=3;miss=2;fs=2;ts=1", "f=rrr;n=3;miss=2;fs=3;ts=3", "f=rrr;n=3;miss=3;fs=3;ts=0", "f=Sr;n=2;fs=1;ts=1", "f=rrr;n=3;fs=2;ts=0;threads=3;sched=0", "f=rrr;n=3;fs=1;ts=1;miss=1;threads=2;sched=2"],
          "thorough": ["f=rrr;n=3;fs=%d;ts=%d;miss=%d" % (a, b, m) for a in range(4) for b in range(4) for m in (0, 1)] +
                      ["f=rsr;n=3;miss=1;fs=1;ts=2", "f=rmr;n=3;fs=3;ts=2", "f=rrr;n=3;miss=2;fs=0;ts=3", "f=rrr;n=3;miss=3;fs=3;ts=0",
-                      "f=Sr;n=2;fs=1;ts=1", "f=Sr;n=2;fs=3;ts=2", "f=rrr;n=4;fs=2;ts=1", "f=rrr;n=4;fs=3;ts=3;miss=4", "f=srmr;n=3;fs=2;ts=3"],
+                      "f=Sr;n=2;fs=1;ts=1", "f=Sr;n=2;fs=3;ts=2", "f=rrr;n=4;fs=2;ts=1", "f=rrr;n=4;fs=3;ts=3;miss=4", "f=srmr;n=3;fs=2;ts=3"] +
+                     ["f=rrr;n=3;miss=%d;fs=%d;ts=%d" % (m, a, b) for m in (2, 3) for a in (1, 2, 3) for b in (0, 1, 2, 3)],
          "encoded": ["nano::scalar_stats_t::make_flatten_stats", "nano::scalar_stats_t::make_targets_stats", "(anonymous)::update(scalar_stats_t&)",
                      "(anonymous)::done(scalar_stats_t&)", "nano::scalar_stats_t::scale", "nano::scalar_stats_t::upscale",
                      "nano::upscale(stats, scaling, stats, scaling, weights, bias)", "(anonymous)::make_scaling", "nano::dataset_t::flatten",
@@ -254,6 +256,11 @@ PROPERTIES["C02"] = {
                 "gradient-sampling solvers (gs, ags, gs-lbfgs, ags-lbfgs): their inner QP solve on symbolic data exceeds the solver budget and is replaced by an arbitrary simplex point (unit C02_gs: every answer the interior-point solver could give; the random sample offsets are those of the fixed-seed generator, i.e. concrete); bundle solvers (rqb, fpba1, fpba2) are covered only with bundle::max_size = 2 (analytic multiplier update, unit C02_bundle, exploration truncated by the path/time budget)",
                 "penalty and augmented-Lagrangian solvers: see C05"],
     "units": [
+        {"engine": "sre", "harness": "C02_penalty", "sources": ["C05_alsolver.cpp"],
+         "quick": ["d=1;cons=b;outers=2;solver=qp", "d=1;cons=e;outers=2;solver=lp", "d=1;cons=q;outers=2;solver=qp", "d=1;cons=l;outers=3;solver=lp", "d=1;cons=l;outers=2;solver=al"],
+         "thorough": ["d=1;cons=%s;outers=%d;solver=%s" % (c, o, sv) for c in ("b", "l", "e", "q", "lb") for o in (2, 3) for sv in ("lp", "qp", "al")] + ["d=2;cons=l;outers=2;solver=qp", "d=2;cons=e;outers=2;solver=lp"],
+         "budget": {"quick": {"deadline_s": 60, "max_paths": 20000, "query_s": 8}, "thorough": {"deadline_s": 900, "max_paths": 300000, "query_s": 30}},
+         "encoded": ["nano::solver_penalty_t::minimize (linear / quadratic penalty solvers), nano::solver_augmented_lagrangian_t::do_minimize: outer loops with the inner solver replaced by a scripted arbitrary-point solver (solver_t::make_solver), nano::converged, nano::solver_t::done, nano::solver_state_t::update"]},
         {"engine": "sre", "harness": "C01_solver", "sources": ["C01_solver.cpp"],
          "quick": ["solver=%s;d=1;conv=1" % s for s in ("sgm", "ellipsoid", "sda", "wda")] + ["solver=gd;d=2;lsevals=2", "solver=lbfgs;d=1", "solver=bfgs;d=1;inf=1", "solver=ellipsoid;d=1;conv=1;inf=1", "solver=sgm;d=1;conv=1;smooth=0;inf=2"],
          "thorough": ["solver=%s;d=1;conv=1" % s for s in _NLS_SOLVERS] + ["solver=%s;d=2;conv=1;smooth=0" % s for s in ("sgm", "ellipsoid", "sda", "wda", "cocob")] +
@@ -563,9 +570,9 @@ PROPERTIES["C13"] = {
          "budget": {"quick": {"deadline_s": 60, "max_paths": 20000}, "thorough": {"deadline_s": 900, "max_paths": 400000}},
          "encoded": _C13_ENC},
         {"engine": "sre", "harness": "C13_tune", "sources": ["C13_tune.cpp"], "concrete_strict": True, "replay_env": {"SYM_REPLAY_TOL": "4e-10"},
-         "quick": ["n=4;folds=2;g=3;evals=10;per=1", "n=5;folds=3;g=5;evals=10;per=1", "n=4;folds=2;g=7;evals=10;per=1;order=1", "n=4;folds=2;g=0", "n=4;folds=2;g=2;evals=10;per=2", "n=6;folds=3;g=9;evals=10;per=1;order=1"],
+         "quick": ["n=4;folds=2;g=3;evals=10;per=1", "n=5;folds=3;g=5;evals=10;per=1", "n=4;folds=2;g=7;evals=10;per=1;order=1", "n=4;folds=2;g=0", "n=4;folds=2;g=2;evals=10;per=2", "n=6;folds=3;g=9;evals=10;per=1;order=1", "n=5;folds=2;g=2;evals=10;per=1;uneven=1", "n=5;folds=3;g=2;evals=10;per=1;uneven=1"],
          "thorough": ["n=%d;folds=%d;g=%d;evals=%d;per=1;order=%d" % (n, f, g, e, o) for (n, f, g, e, o) in ((4, 2, 3, 10, 0), (5, 3, 5, 10, 0), (4, 2, 7, 10, 1), (6, 3, 9, 10, 1), (6, 2, 6, 10, 0), (4, 2, 4, 20, 0), (5, 2, 13, 12, 1), (8, 4, 4, 10, 0))] +
-                     ["n=4;folds=2;g=0", "n=6;folds=3;g=0;per=2", "n=4;folds=2;g=2;evals=10;per=2", "n=4;folds=2;g=3;evals=10;per=2"],
+                     ["n=4;folds=2;g=0", "n=6;folds=3;g=0;per=2", "n=4;folds=2;g=2;evals=10;per=2", "n=4;folds=2;g=3;evals=10;per=2", "n=5;folds=2;g=2;evals=10;per=1;uneven=1", "n=5;folds=3;g=2;evals=10;per=1;uneven=1", "n=5;folds=2;g=3;evals=10;per=1;uneven=1"],
          "budget": {"quick": {"deadline_s": 60, "max_paths": 20000}, "thorough": {"deadline_s": 900, "max_paths": 400000}},
          "encoded": ["nano::ml::tune", "nano::ml::result_t::{add, store, stats, value, values, extra, params, closest_trial, optimum_trial}", "nano::ml::params_t::{splitter, tuner, log}", "nano::kfold_splitter_t::split",
                      "nano::local_search_tuner_t::do_optimize (through the driver)", "nano::parallel::pool_t::map (inline pool)", "nano::ml::store_stats"]},
@@ -741,7 +748,7 @@ PROPERTIES["C03"] = {
     "outside": ["RQB/FPBA1/FPBA2 end to end beyond the bounded runs of mode=bsolver (1-D sharp functions, bundle::max_size 2, max_evals 10..20: most optimality obligations come back `unknown` from nlsat and are counted inconclusive). The property is decomposed instead: C03_bundle checks the certificate of the curve search's stopping tests about the CENTRE, C03_outer checks that the outer loops return a truthful state at least as good as that centre for every behaviour of the curve search (max_evals 10..14); the factor (1+|x-x*|) of the bound is taken at the centre, not at the returned point (they differ only for FPBA)", "'ellipsoid always converges within 20000 evaluations' beyond the bounded necessary condition", "bundles with more than 2 points (inner QP)"],
     "units": [
         {"engine": "sre", "harness": "C03_bundle", "sources": ["C03_bundle.cpp"],
-         "quick": ["mode=bundle;d=1;ops=1;pat=1", "mode=bundle;d=1;ops=1;pat=0", "mode=bundle;d=1;ops=2;pat=2;q=0", "mode=bundle;d=1;ops=2;pat=1;q=0", "mode=bundle;d=2;ops=1;pat=1;q=0", "mode=bundle;d=2;ops=1;pat=0;q=0",
+         "quick": ["mode=bundle;d=1;ops=1;pat=1", "mode=bundle;d=1;ops=1;pat=0", "mode=bundle;d=1;ops=2;pat=2;q=0", "mode=bundle;d=1;ops=2;pat=1;q=0", "mode=bundle;d=2;ops=1;pat=1;q=0", "mode=bundle;d=2;ops=1;pat=0;q=0", "mode=bundle;d=1;ops=3;pat=0;q=0", "mode=bundle;d=1;ops=3;pat=4;q=0",
                    "mode=ellipsoid;d=1", "mode=ellipsoid;d=1;evals=14", "mode=ellipsoid;d=1;zero=1", "mode=ellipsoid;d=1;evals=14;zero=1", "mode=bsolver;solver=fpba1;d=1;evals=10"],
          "thorough": ["mode=ellipsoid;d=1;zero=1", "mode=ellipsoid;d=1;evals=14;zero=1", "mode=ellipsoid;d=2;zero=1"] + ["mode=bundle;d=1;ops=%d;pat=%d;q=%d" % (o, p, q) for o in (1, 2, 3) for p in range(1 << o) for q in (0, 1)] + ["mode=bundle;d=2;ops=%d;pat=%d;q=0" % (o, p) for o in (1, 2) for p in range(1 << o)] +
                      ["mode=ellipsoid;d=1", "mode=ellipsoid;d=1;evals=14", "mode=ellipsoid;d=1;evals=20", "mode=ellipsoid;d=2"] +
